@@ -91,7 +91,8 @@ Definition find_spec (s p : bytes) (init : option Z) : option (Z * Z) :=
   | None => None
   end.
 
-(* S for the oracle: the result exists only if its length fits a Lua string
-   (otherwise the call must raise; which error is implementation defined) *)
+(* S for the oracle: the result exists only if its length does not exceed the
+   implementation's maximal string size (otherwise the call must raise:
+   "resulting string too large" in the reference implementation) *)
 Definition rep_spec_opt (s : bytes) (n : Z) (sep : option bytes) : option bytes :=
-  if rep_len s n sep <? 2^63 then Some (rep_spec s n sep) else None.
+  if rep_len s n sep <=? maxRepSize then Some (rep_spec s n sep) else None.
